@@ -655,7 +655,7 @@ pub open spec fn replay_fork(f0: u64, entries: Seq<Entry>, i: int) -> u64
 
 impl Hypercore {
     /*@ fn src/core.rs Hypercore::new ; noisolation
-    tags: C01 C02 C10 C12
+    tags: C01 C02 C03 C10 C12
     result: r
     requires:
         !storage.failed@
